@@ -133,8 +133,8 @@ pub fn amt_to_forward_msat(
     r is Some ==> r->Some_0 > 0 && r->Some_0 as int + relay_fee(r->Some_0 as int, payment_relay) <= inbound_amt_msat,
  {
 	let inbound_amt = inbound_amt_msat as u128;
-	let prop = payment_relay.fee_proportional_millionths as u128;
 	let base = payment_relay.fee_base_msat as u128;
+	let prop = payment_relay.fee_proportional_millionths as u128;
 
 	let post_base_fee_inbound_amt = inbound_amt.checked_sub(base)?;
 	let fee_for = |amt_to_forward: u128| -> (o: u128)
@@ -234,12 +234,45 @@ proof fn vac__final_hop_acceptance_tests(onion_cltv_expiry: u32, cltv_expiry: u3
     requires current_height <= 0x7fff_ffff,
     ensures false
 {}
+
+// ---- when the monitor goes on chain for an HTLC (R15 slice of should_broadcast_holder_commitment_txn's scan_commitment! test) ----
+pub struct HTLCOutputInCommitment { pub cltv_expiry: u32, pub offered: bool }
+fn must_go_on_chain_for(htlc: &HTLCOutputInCommitment, htlc_outbound: bool, height: u32, preimage_known: bool) -> (r: bool)
+    requires
+    height <= 0x7fff_ffff, htlc.cltv_expiry <= 0x7fff_ffff,
+
+    ensures
+    r == ((htlc_outbound && height as int >= htlc.cltv_expiry + LATENCY_GRACE_PERIOD_BLOCKS)
+       || (!htlc_outbound && preimage_known && height as int >= htlc.cltv_expiry as int - CLTV_CLAIM_BUFFER as int)),
+ {
+        ( htlc_outbound && htlc.cltv_expiry + LATENCY_GRACE_PERIOD_BLOCKS <= height ) || ( !htlc_outbound && htlc.cltv_expiry <= height + CLTV_CLAIM_BUFFER && preimage_known )
+    }
+
+proof fn vac__must_go_on_chain_for(htlc: &HTLCOutputInCommitment, htlc_outbound: bool, height: u32, preimage_known: bool) 
+    requires height <= 0x7fff_ffff, htlc.cltv_expiry <= 0x7fff_ffff,
+    ensures false
+{}
+// (P, C08) with the heights above, the forwarding race of lemma_forward_race is the one the monitor really runs:
+// downstream silent => on chain at outgoing + LATENCY; upstream claimable (preimage known) => on chain from incoming - CLTV_CLAIM_BUFFER
+pub proof fn lemma_on_chain_heights_close_the_race(incoming: int, outgoing: int, delta: int)
+    requires delta >= MIN_CLTV_EXPIRY_DELTA, incoming >= outgoing + delta
+    ensures
+        // the downstream timeout path (on chain at outgoing + LATENCY, two confirmations, burial) completes a grace period before
+        // the upstream HTLC expires
+        outgoing + LATENCY_GRACE_PERIOD_BLOCKS + 2 * MAX_BLOCKS_FOR_CONF + ANTI_REORG_DELAY + LATENCY_GRACE_PERIOD_BLOCKS <= incoming,
+        // the upstream claim path starts (incoming - CLTV_CLAIM_BUFFER) no earlier than a preimage learned at the last moment downstream
+        outgoing + (LATENCY_GRACE_PERIOD_BLOCKS - 1) + LATENCY_GRACE_PERIOD_BLOCKS <= incoming - CLTV_CLAIM_BUFFER,
+{ lemma_forward_race(0, incoming, outgoing, delta); }
 proof fn vac__lemma__lemma_forward_race(h: int, incoming: int, outgoing: int, delta: int)
     requires delta >= MIN_CLTV_EXPIRY_DELTA, incoming >= outgoing + delta,
     ensures false
 {}
 proof fn vac__lemma__lemma_div_bound(p: int, prop: int, a: int)
     requires p >= 0, prop >= 0, a == (p * 1_000_000) / (prop + 1_000_000),
+    ensures false
+{}
+proof fn vac__lemma__lemma_on_chain_heights_close_the_race(incoming: int, outgoing: int, delta: int)
+    requires delta >= MIN_CLTV_EXPIRY_DELTA, incoming >= outgoing + delta,
     ensures false
 {}
 }
